@@ -1,10 +1,15 @@
 (* C10 — txid and block hash are the double SHA-256 of the right bytes.
-   SHA-256 and the two hashing crates are external: the theorems are stated for ANY hash function
-   [H] and ANY streaming engine that satisfies the streaming law (section variables, discharged at
-   the end of the section: no axiom).  The crate's four hash functions are compared with Python's
-   hashlib and with rust-bitcoin on every run. *)
-From BS Require Import Impl.Visit Ref.MetaDefs Proofs.ImplRefLeaf Proofs.ImplRefTx Proofs.Transfer Proofs.Entries
-  Proofs.SpecLemmas Proofs.RefSpec Proofs.SpecTransfer Proofs.TxSpec Proofs.ObjSpec Proofs.Examples.
+   Two layers.  (1) For ANY hash function [H] and ANY streaming engine that satisfies the streaming law
+   (section variables, discharged at the end of the section: no axiom).  (2) With SHA-256 itself inside
+   the model: Base/Sha256.v is an executable FIPS 180-4 implementation (pinned by test vectors evaluated by
+   the kernel, Proofs/Sha256Stream.v), its streaming engine is PROVED to satisfy the law for every chunking,
+   and the model's txid / block-hash accessors (Impl/Access.v) are proved to return its double application to
+   the witness-stripped serialization / the 80 header bytes.  Those accessors are what the correspondence
+   check compares, byte for byte, with the crate's txid(), txid_sha2(), block_hash(), block_hash_sha2() on
+   every run (the hashing crates themselves stay external: they are exercised, not verified). *)
+From BS Require Import Impl.Visit Impl.Access Ref.MetaDefs Proofs.ImplRefLeaf Proofs.ImplRefTx Proofs.Transfer Proofs.Entries
+  Proofs.SpecLemmas Proofs.RefSpec Proofs.SpecTransfer Proofs.TxSpec Proofs.ObjSpec Proofs.Examples
+  Proofs.Sha256Stream Proofs.HashSpec.
 Open Scope N_scope.
 
 (* the three-part txid preimage of every successfully parsed transaction concatenates to the
@@ -53,6 +58,62 @@ Section Hashing.
     exists (enc_header a), (bytes (remaining pr)). split; [exact Hb|split; [exact L|exact Hs]].
   Qed.
 End Hashing.
+
+(* ---- layer 2: SHA-256 inside the model ---- *)
+
+(* the streaming engine computes the one-shot function whatever the chunking: the hypothesis [streaming]
+   above is a theorem for the modelled engine *)
+Theorem C10_sha256_streaming_law : forall chunks,
+  sha_finish (fold_left sha_update chunks sha_init) = sha256 (concat chunks).
+Proof. exact sha_stream_chunks. Qed.
+
+Theorem C10_sha256_engine_satisfies_section_hypothesis : forall a b c,
+  sha_finish_d (sha_update (sha_update (sha_update sha_init a) b) c) = sha256d (a ++ b ++ c).
+Proof. exact sha_stream3_d. Qed.
+
+(* Transaction::txid and Transaction::txid_sha2 *)
+Theorem C10_txid_is_double_sha256_of_stripped : forall brk p b h pr h', InLen b ->
+  visit_transaction brk (sl p b) h = (Ok pr, h') ->
+  exists t, wf_tx t /\ b = enc_tx t ++ bytes (remaining pr) /\
+            tx_txid (parsed pr) = Ok (sha256d (enc_stripped t)) /\ tx_txid_sha2 (parsed pr) = Ok (sha256d (enc_stripped t)).
+Proof. exact tx_txid_spec. Qed.
+
+(* BlockHeader::block_hash / block_hash_sha2 *)
+Theorem C10_header_hash_is_double_sha256_of_80_bytes : forall brk p b h pr h', In63 b ->
+  visit_header brk (sl p b) h = (Ok pr, h') ->
+  exists c, b = c ++ bytes (remaining pr) /\ lenN c = 80 /\
+            header_block_hash (parsed pr) = sha256d c /\ header_block_hash_sha2 (parsed pr) = sha256d c.
+Proof. exact header_block_hash_spec. Qed.
+
+(* Block::block_hash / block_hash_sha2 *)
+Theorem C10_block_hash_is_double_sha256_of_header : forall brk p b h pr h', InLen b ->
+  visit_block brk (sl p b) h = (Ok pr, h') ->
+  exists a, wf_block a /\ b = enc_block a ++ bytes (remaining pr) /\
+            block_block_hash (parsed pr) = sha256d (enc_header (ab_header a)) /\
+            block_block_hash_sha2 (parsed pr) = sha256d (enc_header (ab_header a)) /\
+            firstn 80 b = enc_header (ab_header a).
+Proof. exact block_block_hash_spec. Qed.
+
+Theorem C10_digest_is_32_bytes : forall m, length (sha256d m) = 32%nat.
+Proof. intros m. apply sha256_length. Qed.
+
+(* non-vacuity of layer 2: FIPS 180-4 vectors, the genesis block hash, a txid that differs from the wtxid *)
+Example C10_sha256_vectors :
+  hex_of (sha256 [x61; x62; x63]) =
+    [0xba;0x78;0x16;0xbf;0x8f;0x01;0xcf;0xea;0x41;0x41;0x40;0xde;0x5d;0xae;0x22;0x23;
+     0xb0;0x03;0x61;0xa3;0x96;0x17;0x7a;0x9c;0xb4;0x10;0xff;0x61;0xf2;0x00;0x15;0xad] /\
+  hex_of (sha256 msg56) =
+    [0x24;0x8d;0x6a;0x61;0xd2;0x06;0x38;0xb8;0xe5;0xc0;0x26;0x93;0x0c;0x3e;0x60;0x39;
+     0xa3;0x3c;0xe4;0x59;0x64;0xff;0x21;0x67;0xf6;0xec;0xed;0xd4;0x19;0xdb;0x06;0xc1].
+Proof. split; [exact sha256_abc|exact sha256_two_blocks]. Qed.
+Example C10_genesis_block_hash :
+  match visit_header never (sl 0 (enc_header genesis_header ++ [x01])) [] with
+  | (Ok pr, _) => hex_of (header_block_hash (parsed pr)) =
+      [0x6f;0xe2;0x8c;0x0a;0xb6;0xf1;0xb3;0x72;0xc1;0xa6;0xa2;0x46;0xae;0x63;0xf7;0x4f;
+       0x93;0x1e;0x83;0x65;0xe1;0x5a;0x08;0x9c;0x68;0xd6;0x19;0x00;0x00;0x00;0x00;0x00]
+  | _ => False
+  end.
+Proof. exact genesis_block_hash. Qed.
 
 (* non-vacuity: the segwit example transaction is parsed (with trailing bytes, at a non-zero offset) *)
 Example C10_example : InLen (ex_tx_bytes ++ ex_trailing) /\ exists pr h',
